@@ -738,7 +738,7 @@ def mutate_malformed(r, pt, case):
     kind = r.choice(["count+", "count-", "abi-type", "abi-type", "txn-type", "txn-type", "txn-noenum", "txn-notenum",
                      "txn-unknown", "txn-notdict", "ref-exprtype", "ref-wrongref", "plain-uint-expr", "plain-dict",
                      "plain-ref", "junk", "appid-bytes", "extra-scalar-list", "extra-array-scalar", "extra-type",
-                     "txn-field-type"])
+                     "txn-field-type", "abi-arity", "abi-arity", "abi-arity"])
     if kind == "count+":
         c["args"].append({"k": "int", "n": 1})
     elif kind == "count-":
@@ -755,6 +755,32 @@ def mutate_malformed(r, pt, case):
         g = r.choice(cands)
         gt = A.ABIType.from_string(g)
         c["args"][i] = {"k": "abi", "type": g, "val": gen_value(r, gt)}
+    elif kind == "abi-arity":
+        # a tuple with one member fewer / more than the signature's (a prefix, or an extension): never assignable
+        cand = [j for j in plain if "(" in str(types[j])]
+        if not cand:
+            return None
+        i = r.choice(cand)
+        tt = A.ABIType.from_string(str(types[i]))
+
+        def reshape(t):
+            """first tuple found (depth first): drop its last member or repeat it"""
+            if isinstance(t, A.TupleType):
+                kids = list(t.child_types)
+                if len(kids) >= 2 and r.random() < 0.5:
+                    return A.TupleType(kids[:-1]), True
+                return A.TupleType(kids + [kids[-1] if kids else A.UintType(8)]), True
+            if isinstance(t, A.ArrayStaticType):
+                c, ok = reshape(t.child_type)
+                return A.ArrayStaticType(c, t.static_length), ok
+            if isinstance(t, A.ArrayDynamicType):
+                c, ok = reshape(t.child_type)
+                return A.ArrayDynamicType(c), ok
+            return t, False
+        gt, ok = reshape(tt)
+        if not ok:
+            return None
+        c["args"][i] = {"k": "abi", "type": str(gt), "val": gen_value(r, gt)}
     elif kind == "txn-type":
         i = pick(r, [j for j in txs if types[j] != "txn"])
         if i is None:
